@@ -411,6 +411,8 @@ func checkC15(p *Prog, r *Report) {
 			r.floor("R15.6", "returns after a banner match", nret, 1)
 		}
 	}
+	r.rule("R15.7", "What stripReloadBanner does after it removed a banner keeps its audited controlling conditions (tables/guards.tsv rows for C15): banner alone before the prompt -> wait for the next prompt and strip it; banner directly behind real output -> try a further prompt; otherwise nothing more is read. (Reading a prompt that will not come ends the run with a time-out; not reading one that comes shifts every later answer.)")
+	ruleGuardTable(p, r, "R15.7", "C15")
 	// "only if all changes were accepted": the IOS instance of R09.1
 	ruleOutputValidated(p, nil, r, "ios")
 	r.Trusted = []string{"go/ssa, call graph", "IOS prints the reload banners in the forms bannerRe matches"}
